@@ -6,8 +6,17 @@
        A1 [cnt_inverse_is_reverse], A2 [occ_inverse_is_reverse],
        A3 [profile_inverse_is_reverse] (+ order: [class_props_reverse],
        [class_type_keys_reverse], [class_cards_reverse]).
+       A4 [shex_class_direct_dfilter] (filtering by property commutes with
+       selection and tuning), [raw_profile_inverse_is_reverse_eq] (entries
+       equal as dictionaries outside tau), [track_reverse],
+       [run_inverse_is_reverse].
     B. C09, blank-node renaming: [track_rename], [cnt_rename], [occ_rename],
-       [class_count_rename], [profile_rename], [e2e_keys_rename].
+       [class_count_rename], [profile_rename], [e2e_keys_rename],
+       [e2e_keys_rename_direct].
+    C. C09 (c) complements: [e2e_keys_perm_valid] / [e2e_keys_perm_total] (no
+       success hypotheses under [valid_input]); [profile_kept_char],
+       [run_raw_keys_iff_occ], [run_raw_keys_perm], [e2e_keys_perm_any],
+       [e2e_keys_perm_valid_any] (any setting of remove_empty_shapes).
 
     No definition of Model/ or Spec/ is changed; everything here is a lemma
     about them. *)
